@@ -34,6 +34,7 @@ theorem extractI_ref (d : D) : extractI refExtract d = some (extractOp d) := by
   · cases r <;> simp [extractI, extractOp, refExtract, h, firstArm, Guard.holds]
   · simp [extractI, extractOp, refExtract, h, firstArm, Guard.holds]
 
-theorem runUserI_ref (b : Beh) : runUserI refRunUser refGotUserFailure b = some (runUser b) := by simp [runUserI, refRunUser, refGotUserFailure]
+theorem runUserI_ref (b : Beh) : runUserI refRunUserSig refRunUser refGotUserFailure b = some (runUser b) := by
+  simp [runUserI, refRunUserSig, refRunUser, refGotUserFailure]
 
 end TTV.DeferredSkel
